@@ -1,7 +1,7 @@
 SPEC = {
     "id": "C09",
     "level": "exploration",
-    "level_text": "Generated XDS byte-pair streams (interleaved packets, continue codes, caption interruptions, parity/drop/dup/bit faults) are fed to the real XDS demultiplexer (both feed interfaces) and to the service decoder under ASan+UBSan(bounds-strict); an independent reference receiver written from the EIA-608 XDS framing rules decides which packets are deliverable and the callback log must equal that list exactly (order, class, type, length, bytes, NUL). Held on the executions produced, not a proof.",
+    "level_text": "Generated XDS byte-pair streams (interleaved packets, continue codes, caption interruptions, parity/drop/dup/bit faults) are fed to the real XDS demultiplexer (both feed interfaces) and to the service decoder under ASan+UBSan(bounds-strict); an independent reference receiver written from the EIA-608 XDS framing rules decides which packets are deliverable and the callback log must equal that list exactly (order, class, type, length, bytes, NUL); packets are interrupted at every pair boundary including right behind the start or continue code. In the programme/network information scenario a small pool of meaningful packets, half of them variants of another one that differ in one flag, number or character or are a prefix/extension of its text, is repeated: every VBI_EVENT_PROG_INFO / NETWORK must follow a second identical reception and carry the decoded content of the latest valid packets. Held on the executions produced, not a proof.",
     "level_note": "Trusted: the reference receiver in harness/c09_xds.c (self-tested on hand vectors and cross-checked against the packetiser's bookkeeping on every fault-free stream), gcc ASan/UBSan runtimes, the UBSan idiom allow-list.",
     "technique": "runtime monitoring: differential oracle (independent XDS packetiser + reference receiver) over generated fault-injected streams, ASan/UBSan bounds-strict",
     "rule": "one case = 1-8 generated packets interleaved into one field-2 pair stream plus 0-3 faults; signature = (packet count bucket, max length class, interleaving depth, fault kinds, mid-packet NUL, deliverable count bucket); trivial = fault-free stream with no deliverable packet",
